@@ -87,6 +87,16 @@ var c13Whole = []string{"0", "-1", "+1", "1.5", ".5", "5.", "1e5", "1e+5", "2E+1
 	"true", "false", "null", "nil", "undefined", "http://a.b/c?d=e&f=g#h", "https://h", "//h/p", "mailto:a@b.c", "a@b.c", "javascript:alert(1)", "data:text/html,<b>", "2021-03-04T05:06:07+01:00", "+49 30 123",
 	"{\"a\": [1, 2]}", "[1, 2]", "<!DOCTYPE html>", "<?xml version=\"1.0\"?>", "&copy;", "&#169;", "&#xA9;", "\\u00e9", "%C3%A9", "a+b", "a b", "a%20b", "100%", "%", "%%", "%zz", "\\", "\\\\n"}
 
+// ... and strings made of one character over and over: whatever an escaper sizes ahead of time, it sizes it for the
+// character that grows most (nine NULs need 72 bytes as an html attribute)
+func init() {
+	for _, c := range []string{"\x00", "\x01", "\x1f", "\x7f", "\"", "&", "<", "'", "\\", "/", " ", "\n", "\u0080", "\u07ff", "\u0800", "\uffff", "\U00010000", "\U0010ffff", "\xff", "%", "+", "a"} {
+		for _, n := range []int{9, 11, 17, 65, 130} {
+			c13Whole = append(c13Whole, strings.Repeat(c, n), strings.Repeat(c, n)+"z")
+		}
+	}
+}
+
 // c13Conc rounds of concurrent callers: an escaper is a function of its input, whoever else is calling it (or
 // another escaper) at the same moment.
 const c13Conc = 6
